@@ -234,9 +234,9 @@ func checkDefs() map[string]CheckDef {
 	add("C10",
 		cat(each("H_C10_cseq", seq(1, 21)), each("H_C10_uint", l(0, 1), seq(1, 21)), each("H_C10_status"),
 			each("H_C10_cexp", seq(1, 24)), each("H_C10_q", seq(0, 5)), each("H_C10_port", l(0, 1, 2, 3, 4, 5, 6, 7, 8), seq(1, 8)), each("H_C10_port", l(0, 4), seq(9, 22)),
-			each("H_C10_hdr", l(0, 1, 2), seq(1, 12)), each("H_C10_cexp_tok", l(0), seq(1, 6)), each("H_C10_cexp_tok", l(1), seq(1, 4))),
-		cat(each("H_C10_hdr", l(0, 1, 2), seq(13, 24)), each("H_C10_cexp_tok", l(0), seq(7, 12)), each("H_C10_cseq", seq(22, 40)), each("H_C10_uint", l(0), seq(22, 36)), each("H_C10_uint", l(1), seq(22, 40)), each("H_C10_cexp", seq(25, 32)), each("H_C10_port", l(0, 1, 3), seq(23, 40)), each("H_C10_port", l(6, 8), seq(9, 22))),
-		"every numeric position with all digit strings of length 1..21/24 (40; Expires 36 and Contact expires 32 - the obligations for longer strings time out in z3 and are not claimed): CSeq, Expires, Content-Length, reply status, Contact expires (saturation), q (6 shapes), URI port (9 carriers: with / without user, symbolic passwords before the host, bracketed host, followed by end / parameters / headers); Expires / Content-Length / CSeq header lines of 1..12 (24) digits through ParseHdrLine delivered in two pieces (every cut); Contact expires / q values that are arbitrary alphanumeric tokens of 1..6 (12) bytes (a number only for digit strings); reference = exact 64-bit decimal value of the last 19 digits + leading-zero test",
+			each("H_C10_hdr", l(0, 1, 2), seq(1, 12)), each("H_C10_cexp_tok", l(0), seq(1, 6)), each("H_C10_cexp_tok", l(1), seq(1, 4)), each("H_C10_qint", seq(1, 20))),
+		cat(each("H_C10_hdr", l(0, 1, 2), seq(13, 24)), each("H_C10_cexp_tok", l(0), seq(7, 12)), each("H_C10_qint", seq(21, 24)), each("H_C10_cseq", seq(22, 40)), each("H_C10_uint", l(0), seq(22, 36)), each("H_C10_uint", l(1), seq(22, 40)), each("H_C10_cexp", seq(25, 32)), each("H_C10_port", l(0, 1, 3), seq(23, 40)), each("H_C10_port", l(6, 8), seq(9, 22))),
+		"every numeric position with all digit strings of length 1..21/24 (40; Expires 36 and Contact expires 32 - the obligations for longer strings time out in z3 and are not claimed): CSeq, Expires, Content-Length, reply status, Contact expires (saturation), q (6 shapes; integer part of 1..20 (24) digits incl. leading zeros and values beyond 2^64), URI port (9 carriers: with / without user, symbolic passwords before the host, bracketed host, followed by end / parameters / headers); Expires / Content-Length / CSeq header lines of 1..12 (24) digits through ParseHdrLine delivered in two pieces (every cut); Contact expires / q values that are arbitrary alphanumeric tokens of 1..6 (12) bytes (a number only for digit strings); reference = exact 64-bit decimal value of the last 19 digits + leading-zero test",
 		"digit strings longer than 40; chunk schedules of more than two pieces are covered by C02")
 
 	add("C11",
